@@ -40,9 +40,9 @@ theorem plus_occurrence_iff (cfg : Config) (l r : Node) (sp : Span) (h : cfg.plu
   simp [ownOcc, h]
   cases litSum l <;> cases litSum r <;> simp
 
-/-! ### coverage of `+` and template literals through the visitors
+/-! ### coverage of `+`, `+=`, template literals and plain method calls through the visitors
 
-`R cfg d sp0 n` counts the `+` / template occurrences that the specification (`ownOcc`, written from the
+`R cfg d sp0 n` counts the `+` / `+=` / template / `recv.m(..)` occurrences that the specification (`ownOcc`, written from the
 property text) requires for the hook site `(d, sp0)` in the positions of `n` that the operation visitor
 reaches — everything but the operands of `delete`, the substitutions of a template that has a literal
 one, nested blocks and arrow functions (those belong to the block visitor) and optional chains (not
@@ -53,26 +53,40 @@ theorem required_plus_is_counted (cfg : Config) (op : String) (l r : Node) (sp :
     (h : ownOcc cfg (.bin op l r sp) = some o) : reqOwn cfg o.dst o.sp (.bin op l r sp) = 1 :=
   reqOwn_spec_bin cfg op l r sp o h
 
+/-- the specification's `+=` occurrence is what `R` counts for a compound assignment -/
+theorem required_plus_assign_is_counted (cfg : Config) (op : String) (l r : Node) (sp : Span) (o : Occ)
+    (h : ownOcc cfg (.assign op l r sp) = some o) : reqOwn cfg o.dst o.sp (.assign op l r sp) = 1 :=
+  reqOwn_spec_assign cfg op l r sp o h
+
+/-- the specification's `recv.m(..)` occurrence (receiver: identifier, call result, parenthesised
+    expression, array literal, member access other than `.prototype`, or an allowed literal; `m` not
+    `call`/`apply` — those are the `X.prototype.m.call(..)` forms, left to the oracle) is what `R` counts -/
+theorem required_method_call_is_counted (cfg : Config) (recv : Node) (m : String) (msp cmsp : Span) (cargs : List Node)
+    (sp : Span) (csi : CsiMethod) (hg : cfg.get m = some csi) (hca : isCallOrApply m = false) (hr : recvOK cfg m recv = true) :
+    ownOcc cfg (.call (.member recv (.pname m msp) cmsp) cargs sp) = some ⟨csi.dst, sp, "call"⟩ ∧
+    reqOwn cfg csi.dst sp (.call (.member recv (.pname m msp) cmsp) cargs sp) = 1 :=
+  reqOwn_spec_call cfg recv m msp cmsp cargs sp csi hg hca hr
+
 /-- the specification's template occurrence is what `R` counts for a template node -/
 theorem required_template_is_counted (cfg : Config) (exprs qs : List Node) (sp : Span) (o : Occ)
     (h : ownOcc cfg (.tpl exprs qs sp) = some o) : reqOwn cfg o.dst o.sp (.tpl exprs qs sp) = 1 :=
   reqOwn_spec_tpl cfg exprs qs sp o h
 
-/-- the operation visitor instruments every required `+` / template occurrence it reaches, unless it runs
+/-- the operation visitor instruments every required `+` / `+=` / template / `recv.m(..)` occurrence it reaches, unless it runs
     out of fuel (`fuelOut`, reported by the driver for every input) -/
-theorem visit_instruments_required_plus_and_templates (cfg : Config) (d : String) (sp0 : Span)
+theorem visit_instruments_required_operations (cfg : Config) (d : String) (sp0 : Span)
     (f : Nat) (root : Bool) (n : Node) (s : St) (h0 : ns n = 0) (ht : targetsOk n = true)
     (hs : s.status ≠ .cancelled) (hfo : (visit cfg f root n s).2.fuelOut = false) :
     R cfg d sp0 n ≤ cq (qAt d sp0) (visit cfg f root n s).1 :=
   (visit_cover cfg (okCfg cfg) (cfgOk_dsts cfg) d sp0 f root n s h0 ht hs hfo).1
 
-/-- **C04 for `+` and template literals, per block** (PARTIAL with respect to the property: method calls,
-    `+=` and occurrences inside optional chains are decided by the coverage oracle, and "every block of
+/-- **C04 for `+`, `+=`, template literals and `recv.m(..)`, per block** (PARTIAL with respect to the property:
+    `X.prototype.m.call|apply(..)`, `recv?.m(..)` and occurrences inside optional chains are decided by the coverage oracle, and "every block of
     the file is entered" is not part of the statement).  Every block statement the block visitor enters —
     at any depth, in any state that is not cancelled, the block not mentioning the hook namespace and
     with parser-shaped `+=` targets — comes back, unless the run is cancelled or out of fuel, with at
     least one hook call of the expected name and span for every required occurrence in its statements. -/
-theorem entered_block_instruments_required_plus_and_templates_partial (cfg : Config) (d : String) (sp0 : Span)
+theorem entered_block_instruments_required_operations_partial (cfg : Config) (d : String) (sp0 : Span)
     (opFuel f : Nat) (ss : List Node) (sp : Span) (s : St) (hs : s.status ≠ .cancelled)
     (h0 : nsL ss = 0) (hb : badL ss = 0)
     (hfin : (blockVisit cfg opFuel (f + 1) (.block ss sp) s).2.status ≠ .cancelled)
